@@ -17,7 +17,9 @@ META = {
 }
 SPECDIR = SPECS / "lossy"
 
-CONCS = {"str": lambda i: "k%d" % i, "int": lambda i: 500 + i, "tuple": lambda i: ("t", i)}
+CONCS = {"str": lambda i: "k%d" % i, "int": lambda i: 500 + i, "tuple": lambda i: ("t", i),
+         # keys of several types that cannot be ordered against each other
+         "mixed": lambda i: ("m%d" % i, 700 + i, ("t", i), None if i == 4 else float(i) + 0.5)[i % 4]}
 
 
 class Driver(GenericAdapter):
@@ -367,7 +369,7 @@ def main(tier, seed):
     stats.extra["graph_states"], stats.extra["graph_edges"] = len(g.states), g.n_edges
     for cn in (list(CONCS) if thorough else ["str"]):
         core.replay_graph_generic(g, Driver(cn), verdict, stats)
-    core.replay_walks(g, Driver("str"), verdict, stats, n_walks=2000 if thorough else 300, length=16, seed=seed)
+    core.replay_walks(g, Driver("mixed"), verdict, stats, n_walks=2000 if thorough else 300, length=16, seed=seed)
     canary(stats)
     traces = record(60 if thorough else 24, seed, thorough) + record(28 if thorough else 7, seed + 5, thorough, harmonic_only=True)
     traces += record(0, seed + 6, thorough, given=tlc_adversaries(stats))
